@@ -43,7 +43,8 @@ Definition is_isclosed (o : out) : bool := match snd o with IsClosed => true | _
 (* would the driver deliver this event in this state?  (mirror of the guards of [step]) *)
 Definition applicable (s : cstate) (e : event) : bool :=
   match e with
-  | EHandshake | EBadHandshake => negb (gone s) && wstate_eqb (st s) CONNECTING
+  | EHandshake | EBadHandshake => connecting s
+  | EProxyOk | EProxyBad => proxy_connecting s
   | ESendClose _ _ | ESendMessage | ESendPing | ESendPong | ETick _ => true
   | EPeerDrop _ => negb (gone s)
   | EOwnDrop => negb (gone s) && droppedByMe s
@@ -56,7 +57,7 @@ Record obs := mkObs {
   o_isopen : N; o_isclosed : N;     (* number of is_open / is_closed resolutions in this step *)
   o_state : wstate; o_now : N;
   o_timers : list N;                (* absolute times of the pending reactor calls, ascending *)
-  o_flags : list bool;              (* closedByMe failedByMe droppedByMe wasClean wasOpenTO wasCloseTO wasDropTO pingPending *)
+  o_flags : list bool;              (* closedByMe failedByMe droppedByMe wasClean wasOpenTO wasCloseTO wasDropTO pingPending proxyPending *)
   o_ncr : nreason;
   o_localCode : option N; o_remoteCode : option N;
   o_pingSeq : N
@@ -72,7 +73,7 @@ Definition observe (applied : bool) (s : cstate) (o : list out) : obs :=
         (N.of_nat (length (filter is_isclosed o)))
         (st s) (now s) (sort_times (map te_time (timers s)))
         [closedByMe s; failedByMe s; droppedByMe s; wasClean s; wasOpenTO s; wasCloseTO s; wasDropTO s;
-         isSome (pingPending s)]
+         isSome (pingPending s); proxyPending s]
         (ncr s) (localCode s) (remoteCode s) (pingSeq s).
 
 Definition obs_eqb (a b : obs) : bool :=
